@@ -45,7 +45,9 @@ def c_history(e1: int, e2: int, e3: int, e4: int, a1: bool, a2: bool, a3: bool, 
     if o.app_cancelled:
         log_at, sent_at = o.cancel_at
         # the request itself may still be lease-blocked / the connection may have been closed right away
-        if len(cancels) != 1 and not (o.closed and len(cancels) == 0):
+        # (if the peer's terminal frame had already arrived - though not yet been processed - when the application
+        #  cancelled, the interaction was no longer pending on the wire: zero CANCEL frames is then correct too)
+        if len(cancels) != 1 and not ((o.closed or o.cancel_peer_done) and len(cancels) == 0):
             devs.append('C09:%s:app-cancel-produced-%d-CANCEL-frames' % (role, len(cancels)))
         sub = o.sub if role in ('rs_req', 'ch_req') else o.rsub
         if sub is not None and len(sub.log) > log_at:
